@@ -357,6 +357,41 @@ def run(ctx):
     ctx.stat('DROP', cuts=n_drop)
     if n_drop < 6:
         ctx.anchor_missing('DROP', 'stores of EMPTY_REF into the root or a child link outside constructor and clear', ['C11'], n_drop, 6)
+    # ---------------- ROOTTEST (a test that the tree's own discipline makes constant) ----------------
+    # LINKPAIR establishes that whatever is stored into `root` gets EMPTY_REF as its parent.  A branch on
+    # `node(self.root).parent == EMPTY_REF` is therefore always taken the same way: the other arm - typically the
+    # repair the test was meant to guard, `node(n).parent` mistyped as `node(root).parent` - is dead code.  Assertions
+    # (an arm that cannot return) are not branches in this sense.
+    n_rt = 0
+    for tree in sorted(prog.tree_adts):
+        for f in sorted([f for f in prog.fns.values() if f.self_adt == tree and not f.is_closure], key=lambda x: x.path):
+            b = f.body
+            tests_here = bad_here = 0
+            for bb, d in sorted(b.switch_discr.items()):
+                d = strip(d)
+                if d is None or d.kind != 'bin' or d.args[0] not in ('Eq', 'Ne'):
+                    continue
+                x, y = strip(d.args[1]), strip(d.args[2])
+                for p, q in ((x, y), (y, x)):
+                    if p is None or q is None or p.kind != 'load' or not prog.is_empty_ref(q):
+                        continue
+                    nf = prog.node_field(p)
+                    if not nf or nf[1] != ('parent',):
+                        continue
+                    idx = strip(nf[0])
+                    n_rt += 1
+                    tests_here += 1
+                    if idx.kind == 'load' and strip(idx.args[0]).kind == 'param' and idx.fields() == ('root',):
+                        succ = b.cfg.succ[bb]
+                        if all(s2 in b.cfg.can_return for s2 in succ):
+                            line = span_line(d, f.line)
+                            bad_here += 1
+                            ctx.add('ROOTTEST', f, 'constant-test(root.parent)', 'violation', 'the branch tests node(self.root).parent against EMPTY_REF, which the link discipline makes always equal: one arm is dead code (if this guards a repair or a climb, it never runs, or never stops)', ['C02'], line)
+            if tests_here and not bad_here:
+                ctx.add('ROOTTEST', f, 'parent-tests', 'ok', 'its %d test(s) of a parent link against EMPTY_REF are on a node other than the root' % tests_here, ['C02'], f.line)
+    ctx.stat('ROOTTEST', parent_tests=n_rt)
+    if n_rt < 6:
+        ctx.anchor_missing('ROOTTEST', 'tests of a parent link against EMPTY_REF in the trees', ['C02'], n_rt, 6)
     # ---------------- CLIMB (child / parent cursor pairs of upward loops) ----------------
     n_climb = 0
     for tree in sorted(prog.tree_adts):
